@@ -36,14 +36,65 @@ def expected_sigma(f):
     return None
 
 
-def gaussian_sites(ps):
-    """(sigma term, piece) for every normal_distribution construction and gaussian32 call"""
+STATEFUL_DISTRIBUTIONS = re.compile(r"\b(normal|lognormal|gamma|chi_squared|fisher_f|student_t|poisson|binomial|negative_binomial)_distribution\b")
+
+
+def _scale_of(t, draw):
+    """t == c * draw (floating product) -> c ; t == draw -> 1.0 ; else None"""
+    if t == draw:
+        return ("float", 1.0)
+    if t and t[0] == "cast":
+        return _scale_of(t[2], draw)
+    if t and t[0] == "fop" and t[1] == "*":
+        if t[2] == draw:
+            return t[3]
+        if t[3] == draw:
+            return t[2]
+    return None
+
+
+def _find_scale(ps, draw):
+    for q in ps:
+        for cand in ([q.get("val")] if q.get("val") is not None else []) + list(q.get("args") or []):
+            if cand is None:
+                continue
+            for st in sym.subterms(cand):
+                c = _scale_of(st, draw)
+                if c is not None and st != draw:
+                    return c
+    for q in ps:
+        if q.get("val") is not None and sym.contains(q["val"], draw):
+            return ("float", 1.0)
+    return None
+
+
+def gaussian_sites(ps, v=None):
+    """(sigma term, piece) for every Gaussian draw: a normal_distribution(mean, sigma) constructed on the way, or a draw
+    from a persistent (namespace-scope / static) normal_distribution(0, s0) whose result is scaled by c: sigma = c*s0"""
     out = []
     for p in ps:
         if p["kind"] != "call":
             continue
         if re.search(r"normal_distribution<.*>::normal_distribution$", p["name"]) and len(p["args"]) >= 2:
             out.append((p["args"][1], p))
+        elif v is not None and re.search(r"normal_distribution<.*>::operator\(\)$", p["name"]) and p["args"] and p["args"][0][0] == "glob":
+            g = v.statics.get(p["args"][0][1]) or next((s for s in v.statics.values() if s["name"] == p["args"][0][1].split("@")[0]), None)
+            if g is None or not g.get("init"):
+                continue
+            ia = [a for a in g["init"].get("args", []) if isinstance(a, dict)]
+            try:
+                s0 = float(ia[1].get("cv", ia[1].get("v"))) if len(ia) >= 2 else 1.0
+                m0 = float(ia[0].get("cv", ia[0].get("v"))) if ia else 0.0
+            except (TypeError, ValueError):
+                continue
+            if m0 != 0.0:
+                continue
+            draw = p["eff"].get("ret") if p.get("eff") else None
+            c = _find_scale([q for q in ps if q.get("stack") == p.get("stack")], draw) if draw is not None else None
+            if c is None:
+                continue
+            sg = c if s0 == 1.0 else ("fop", "*", c, ("float", s0))
+            out.append((sg, p))
     return out
 
 
@@ -82,7 +133,7 @@ def run(chk):
                           "new_random_gate_bootstrapping_secret_keyset", "tLweExtractKey", "lweSymEncryptWithExternalNoise"):
                 continue
             ps, _ = summ.pieces(v, f, hooks=full)
-            sites = gaussian_sites(ps)
+            sites = gaussian_sites(ps, v)
             if not sites:
                 chk.refuted("R1", "%s draws Gaussian noise" % f.name, where=f.where, detail="no Gaussian draw is reachable: the output would be noiseless",
                             variant=vn)
@@ -118,13 +169,12 @@ def run(chk):
         g = v.fn("gaussian32")
         gps, _ = summ.pieces(v, g, hooks=NOINLINE)
         msg, sig = [p["n"] for p in g.params]
-        ctor = gaussian_sites(gps)
+        ctor = gaussian_sites(gps, v)
         ret = [p for p in gps if p["kind"] == "return"]
         draw = [p for p in gps if p["kind"] == "call" and p["name"].endswith("::operator()")]
-        ok = len(ctor) == 1 and ctor[0][0] == sym.sym(sig) and ctor[0][1]["args"][0] in (("float", 0.0), ZERO) and len(ret) == 1 and len(draw) == 1 \
-            and sym.glob_ok(draw[0]["args"], "generator") if hasattr(sym, "glob_ok") else (
-                len(ctor) == 1 and ctor[0][0] == sym.sym(sig) and ctor[0][1]["args"][0] in (("float", 0.0), ZERO) and len(ret) == 1 and len(draw) == 1
-                and ("glob", "generator") in draw[0]["args"])
+        ok = len(ctor) == 1 and ctor[0][0] == sym.sym(sig) and len(ret) == 1 and len(draw) == 1 and ("glob", "generator") in draw[0]["args"]
+        if ok and ctor[0][1]["name"].endswith("::normal_distribution"):
+            ok = ctor[0][1]["args"][0] in (("float", 0.0), ZERO)
         lin = sym.linear_in(ret[0]["val"], sym.sym(msg)) if ret else None
         ok = ok and lin is not None and lin[0] == I(1) and contains_call(lin[1], "dtot32")
         chk.require(ok, "R2", "gaussian32(message, sigma) = message + dtot32(N(0, sigma)) drawn from the process generator", where=g.where,
@@ -268,6 +318,22 @@ def run(chk):
             seedc[0]["eff"].get("this") == sym.addr(("glob", "generator"))
         chk.require(ok, "R6", "tfhe_random_generator_setSeed seeds the generator from the whole [values, values+size) range", where=sd.where,
                     ok="seed_seq(values, values+size); generator.seed(seeds)", bad=[summ.show_piece(p)[:120] for p in sps], variant=vn)
+        # a distribution object that outlives a call and keeps internal state (std::normal_distribution caches the second
+        # value of each generated pair) carries that state across a re-seed unless setSeed resets it
+        persistent = [s_ for s_ in rs.values() if STATEFUL_DISTRIBUTIONS.search(s_["t"])]
+        chk.set_count("R6.persistent_stateful_distributions", len(persistent))
+        resets = set()
+        for n in walk(sd.d.get("body")):
+            if n.get("k") == "mcall" and n.get("method") == "reset":
+                for r_ in walk(n.get("obj") or n.get("this") or n):
+                    if r_.get("k") == "ref":
+                        resets.add(r_.get("n"))
+        for s_ in persistent:
+            chk.require(s_["name"] in resets, "R6", "re-seeding resets the persistent distribution object %s" % s_["name"], where=s_["loc"],
+                        ok="%s.reset() in tfhe_random_generator_setSeed" % s_["name"],
+                        bad="%s is a %s that lives across calls and keeps a cached value; tfhe_random_generator_setSeed does not reset() it, so the "
+                            "first draws after re-seeding depend on what was drawn before (same seed, different keys/ciphertexts)" % (
+                                s_["name"], re.sub(r"^.*?(\w+_distribution).*$", r"\1", s_["t"])), variant=vn)
         reseed = []
         for u, f in v.defs.items():
             if u == sd.usr or not f.file.startswith("libtfhe"):
